@@ -333,6 +333,7 @@ class LeaderElectionRandomizedDrv(_ElectionDrv):
 
 
 class DistributedLockDrv(Drv):
+    contention = True
     """One lock name, lease 1 s (expires inside the horizon), max 1 waiter.  'hold' releases after L, 'hog' never
     releases (lease expiry hands the lock over), 'event' uses the LockAcquireRequest event API."""
     family = "consensus"
